@@ -330,7 +330,13 @@ pub struct HistResult {
 }
 
 /// Known-finding triggers: returns Some(trigger) if `op` must be excluded by construction.
-pub type Excluder = dyn Fn(&Cfg, &Tree, &Op) -> Option<&'static str> + Sync;
+/// what a trigger predicate may look at besides the stack, the model state and the op
+pub struct ExCtx<'a> {
+    /// paths that the pre-population placed only in lower layers of the outermost overlay
+    pub lower_only: &'a BTreeSet<String>,
+}
+
+pub type Excluder = dyn Fn(&Cfg, &Tree, &Op, &ExCtx) -> Option<&'static str> + Sync;
 
 pub fn run_hist(
     case: &HistCase,
@@ -439,7 +445,7 @@ pub fn run_plan(
             }
         };
         let op = if !opts.root_removal && removes_root(&op) { Op::Exists(String::new()) } else { op };
-        if let Some(trigger) = exclude(case.cfg, &model, &op) {
+        if let Some(trigger) = exclude(case.cfg, &model, &op, &ExCtx { lower_only: &lower_only }) {
             st.exclude(trigger);
             continue;
         }
@@ -694,7 +700,7 @@ pub fn sample_json(case: &HistCase, opts: &HistOpts, trace: &[String]) -> Value 
 }
 
 pub fn no_exclusions() -> Box<Excluder> {
-    Box::new(|_, _, _| None)
+    Box::new(|_, _, _, _| None)
 }
 
 pub type HistCheck = dyn Fn(&HistCase, &mut Stats, bool) -> CaseResult + Sync;
